@@ -316,6 +316,12 @@ func runC08(c *Ctx) {
 				dom = true
 			}
 		}
+		if !dom && len(countInc) > 0 {
+			// every feasible path from the entry to the send has accounted the packet (the send may sit behind
+			// "if err == nil" on the result of the helper that stores the packet)
+			isInc := func(in ssa.Instruction) bool { d, ok := r.fieldDelta(in, r.count); return ok && d == 1 }
+			dom, _ = mustPassU(entryPos(r.Write), func(in ssa.Instruction) bool { return in == s }, isInc)
+		}
 		if !dom {
 			o.Fail(s.Pos(), "the token is posted before the packet is accounted (count++ does not dominate the send)")
 		}
